@@ -15,9 +15,17 @@ func c18Strs(name string) []string {
 	case 0:
 		return nil
 	case 1:
-		return []string{zzverif.StringUpTo(name+".0", 2, "ab.")}
+		return []string{zzverif.StringOf(name+".0", 2, "ab.")}
 	}
-	return []string{zzverif.StringUpTo(name+".0", 1, "ab."), zzverif.StringUpTo(name+".1", 1, "ab.")}
+	return []string{zzverif.StringOf(name+".0", 1, "ab."), zzverif.StringOf(name+".1", 1, "ab.")}
+}
+
+// c18Opt: empty or a one-byte symbolic string; `set` shares the emptiness choice between related fields.
+func c18Opt(name string, set bool, alpha string) string {
+	if !set {
+		return ""
+	}
+	return zzverif.StringOf(name, 1, alpha)
 }
 
 func c18StrsEq(a, b []string) bool {
@@ -38,7 +46,7 @@ func c18Map(name string) map[string]string {
 	if !zzverif.Bool(name + ".set") {
 		return nil
 	}
-	return map[string]string{"k": zzverif.StringUpTo(name+".v", 2, "xy")}
+	return map[string]string{"k": zzverif.StringOf(name+".v", 1, "xy")}
 }
 
 func c18MapEq(a, b map[string]string) bool {
@@ -55,14 +63,14 @@ func c18MapEq(a, b map[string]string) bool {
 }
 
 func c18Base(b *v1.ProxyBaseConfig, typ string) {
-	b.Name = zzverif.StringUpTo("name", 2, "pq")
-	zzverif.Assume(b.Name != "")
+	b.Name = zzverif.StringOf("name", 2, "pq")
 	b.Type = typ
 	b.Transport.UseEncryption = zzverif.Bool("enc")
 	b.Transport.UseCompression = zzverif.Bool("comp")
 	b.Transport.BandwidthLimitMode = []string{"", "client", "server"}[zzverif.Choice("bwMode", 3)]
-	b.LoadBalancer.Group = zzverif.StringUpTo("group", 1, "g")
-	b.LoadBalancer.GroupKey = zzverif.StringUpTo("groupKey", 1, "k")
+	grouped := zzverif.Bool("grouped")
+	b.LoadBalancer.Group = c18Opt("group", grouped, "gh")
+	b.LoadBalancer.GroupKey = c18Opt("groupKey", grouped, "kl")
 	b.Metadatas = c18Map("metas")
 }
 
@@ -79,6 +87,9 @@ func VerifC18RoundTrip() {
 	types_ := []string{"tcp", "udp", "http", "https", "tcpmux", "stcp", "xtcp", "sudp"}
 	typ := types_[zzverif.Choice("type", len(types_))]
 	scfg := &v1.ServerConfig{VhostHTTPPort: 80, VhostHTTPSPort: 443, TCPMuxHTTPConnectPort: 5002, SubDomainHost: "zz.example"}
+	if typ == "http" && zzverif.Bool("vhostHTTPDisabled") {
+		scfg.VhostHTTPPort = 0
+	}
 	var cli v1.ProxyConfigurer
 	switch typ {
 	case "tcp":
@@ -90,33 +101,35 @@ func VerifC18RoundTrip() {
 		c18Base(&c.ProxyBaseConfig, typ)
 		cli = c
 	case "http":
-		c := &v1.HTTPProxyConfig{Locations: c18Strs("loc"), HTTPUser: zzverif.StringUpTo("hu", 1, "u"), HTTPPassword: zzverif.StringUpTo("hp", 1, "p"),
-			HostHeaderRewrite: zzverif.StringUpTo("rw", 1, "h"), RouteByHTTPUser: zzverif.StringUpTo("ru", 1, "u")}
-		c.CustomDomains, c.SubDomain = c18Strs("dom"), zzverif.StringUpTo("sub", 1, "s")
+		set := zzverif.Bool("httpOptsSet")
+		c := &v1.HTTPProxyConfig{Locations: c18Strs("loc"), HTTPUser: c18Opt("hu", set, "uv"), HTTPPassword: c18Opt("hp", set, "pq"),
+			HostHeaderRewrite: c18Opt("rw", set, "hi"), RouteByHTTPUser: c18Opt("ru", set, "uv")}
+		c.CustomDomains, c.SubDomain = c18Strs("dom"), c18Opt("sub", zzverif.Bool("subSet"), "st")
 		c.RequestHeaders.Set, c.ResponseHeaders.Set = c18Map("reqH"), c18Map("respH")
 		c18Base(&c.ProxyBaseConfig, typ)
 		cli = c
 	case "https":
 		c := &v1.HTTPSProxyConfig{}
-		c.CustomDomains, c.SubDomain = c18Strs("dom"), zzverif.StringUpTo("sub", 1, "s")
+		c.CustomDomains, c.SubDomain = c18Strs("dom"), c18Opt("sub", zzverif.Bool("subSet"), "st")
 		c18Base(&c.ProxyBaseConfig, typ)
 		cli = c
 	case "tcpmux":
-		c := &v1.TCPMuxProxyConfig{HTTPUser: zzverif.StringUpTo("hu", 1, "u"), HTTPPassword: zzverif.StringUpTo("hp", 1, "p"),
-			RouteByHTTPUser: zzverif.StringUpTo("ru", 1, "u"), Multiplexer: []string{"httpconnect", ""}[zzverif.Choice("mux", 2)]}
-		c.CustomDomains, c.SubDomain = c18Strs("dom"), zzverif.StringUpTo("sub", 1, "s")
+		set := zzverif.Bool("muxOptsSet")
+		c := &v1.TCPMuxProxyConfig{HTTPUser: c18Opt("hu", set, "uv"), HTTPPassword: c18Opt("hp", set, "pq"),
+			RouteByHTTPUser: c18Opt("ru", set, "uv"), Multiplexer: []string{"httpconnect", ""}[zzverif.Choice("mux", 2)]}
+		c.CustomDomains, c.SubDomain = c18Strs("dom"), c18Opt("sub", zzverif.Bool("subSet"), "st")
 		c18Base(&c.ProxyBaseConfig, typ)
 		cli = c
 	case "stcp":
-		c := &v1.STCPProxyConfig{Secretkey: zzverif.StringUpTo("sk", 2, "sk"), AllowUsers: c18Strs("allow")}
+		c := &v1.STCPProxyConfig{Secretkey: zzverif.StringOf("sk", 2, "sk"), AllowUsers: c18Strs("allow")}
 		c18Base(&c.ProxyBaseConfig, typ)
 		cli = c
 	case "xtcp":
-		c := &v1.XTCPProxyConfig{Secretkey: zzverif.StringUpTo("sk", 2, "sk"), AllowUsers: c18Strs("allow")}
+		c := &v1.XTCPProxyConfig{Secretkey: zzverif.StringOf("sk", 2, "sk"), AllowUsers: c18Strs("allow")}
 		c18Base(&c.ProxyBaseConfig, typ)
 		cli = c
 	default:
-		c := &v1.SUDPProxyConfig{Secretkey: zzverif.StringUpTo("sk", 2, "sk"), AllowUsers: c18Strs("allow")}
+		c := &v1.SUDPProxyConfig{Secretkey: zzverif.StringOf("sk", 2, "sk"), AllowUsers: c18Strs("allow")}
 		c18Base(&c.ProxyBaseConfig, typ)
 		cli = c
 	}
